@@ -216,6 +216,7 @@ def run_unit(u, tier, keep=False, extra_defs=(), want_trace_for=None, relax_cove
             r.status, r.reason = "undecided", reason
             return r
         tmo = u.get("timeout_thorough" if tier == "thorough" else "timeout", u.get("timeout", 600))
+        tmo = max(tmo, int(os.environ.get("VERIF_MIN_TIMEOUT", "900")))      # per-unit limits were measured on an idle machine: under load (parallel checks) leave ample room; a timeout is "undecided", never a verdict
         extra = []
         if want_trace_for:
             extra = ["--trace"] + sum((["--property", p] for p in want_trace_for), [])
